@@ -5,8 +5,12 @@ import KrroodVerif.Drive.EqlParse
 /-!
 Driver of C11. One case:
 
-`(m (pat P) (dom v…) (objs o…) (sub (c d)…) (schema (cls attr rel coll type|-)…))`
+`(m (pat P) (dom v…) (objs o…) (sub (c d)…) (schema (cls attr rel coll type|-)…) [(steps S…)])`
 `P ::= (p cls|- sel (attr A)…)`    `A ::= (lit v) | (coll v ex un sel) | (nested P)`
+`S ::= (st E…)`   `E ::= (set i attr v) | (setip i attr v) | (new o) | (free i)`
+
+With `steps` the SAME query object is evaluated once per data state (before the first step and after every step); every
+result field then is the ` | `-separated list of the per-state results (`Match.runSeq`).
 
 prints `model=` (desugar + evaluator with today's quirks), `spec=` (`specRows`), `trig=` (finding ids),
 `model_fixed=` (all quirks off). Rows are printed as a sorted, de-duplicated set.
@@ -46,6 +50,18 @@ structure Case where
   s : Schema
   dom : List Val
   p : Pat
+  steps : List (List Edit) := []
+
+def parseEdit : Sexp → Option Edit
+  | .list [.atom "set", i, .atom n, v] => do pure (Edit.set (← i.asNat?) n (← parseVal v))
+  | .list [.atom "setip", i, .atom n, v] => do pure (Edit.set (← i.asNat?) n (← parseVal v))
+  | .list [.atom "new", o] => (parseObj o).map Edit.new
+  | .list [.atom "free", i] => i.asNat?.map Edit.free
+  | _ => none
+
+def parseStep : Sexp → Option (List Edit)
+  | .list (.atom "st" :: es) => es.mapM parseEdit
+  | _ => none
 
 def parseCase : Sexp → Option Case
   | .list (.atom "m" :: items) => do
@@ -58,7 +74,10 @@ def parseCase : Sexp → Option Case
       | some xs => xs.mapM parseSub
       | none => some []
     let s ← (← Sexp.field? items "schema").mapM parseSchemaEntry
-    pure { w := { objs := objs, doms := [], subclass := sub }, s := s, dom := dom, p := p }
+    let steps ← match Sexp.field? items "steps" with
+      | some xs => xs.mapM parseStep
+      | none => some []
+    pure { w := { objs := objs, doms := [], subclass := sub }, s := s, dom := dom, p := p, steps := steps }
   | _ => none
 
 def showRun (r : Option (List (List Val))) : String :=
@@ -140,20 +159,23 @@ def sublists {α} : List α → List (List α)
   | [] => [[]]
   | x :: xs => (sublists xs).flatMap fun l => [l, x :: l]
 
+def joinStates (xs : List String) : String := " | ".intercalate xs
+
 def run (s : Sexp) : String :=
   match parseCase s with
   | none => "error=bad-case"
   | some c =>
-    let m := Match.run c.w Quirks.today c.s c.dom c.p
-    let mf := Match.run c.w Quirks.fixed c.s c.dom c.p
-    let sp := specRows c.w c.dom c.p
+    let ws := worlds c.w c.steps
+    let seq := fun (Q : Quirks) => joinStates ((runSeq Q c.s c.dom c.p c.w c.steps).map showRun)
+    let sp := joinStates (ws.map fun w => showRun (some (specRows w c.dom c.p)))
     let trig := triggers c.w c.s c.p
     -- one alternative per proper non-empty subset of the triggered findings being repaired
     let alts := (sublists trig).filter fun l => !l.isEmpty && l.length < trig.length
-    let altFields := alts.map fun l =>
-      s!"\tmodel_without_{"_".intercalate l}={showRun (Match.run c.w (quirksWithout l) c.s c.dom c.p)}"
-    s!"model={showRun m}\tspec={showRun (some sp)}\ttrig={",".intercalate trig}\tmodel_fixed={showRun mf}" ++
-      s!"\twf={c.p.wf c.s c.w.subclass}\tconf={conformsB c.w c.s}\tnsel={c.p.nSel}\teql={eqlCheck c}" ++
-      String.join altFields
+    let altFields := alts.map fun l => s!"\tmodel_without_{"_".intercalate l}={seq (quirksWithout l)}"
+    let eqls := ws.map fun w => eqlCheck { c with w := w }
+    let eql := if eqls.contains "differs" then "differs" else if eqls.all (· == "ok") then "ok" else "n/a"
+    s!"model={seq Quirks.today}\tspec={sp}\ttrig={",".intercalate trig}\tmodel_fixed={seq Quirks.fixed}" ++
+      s!"\twf={c.p.wf c.s c.w.subclass}\tconf={ws.all fun w => conformsB w c.s}\tnsel={c.p.nSel}\teql={eql}" ++
+      s!"\tstates={ws.length}" ++ String.join altFields
 
 end KrroodVerif.Drive.C11
